@@ -9,7 +9,24 @@ COMMON_NOTE = ("Trusted: Lean 4.33 kernel; axioms propext/Classical.choice/Quot.
                "The theorems are about the hand-written Lean model; the tie to /repo is the regenerated tables plus the "
                "correspondence run, which is sampling (bounded-exhaustive + random), not proof. ")
 
+POOL_NOTE = ("The theorems are about the labelled transition system GwfModel/Pool.lean (labels = the events observable on the real Scheduler). "
+             "That asyncio realises only enabled transitions is VALIDATED by trace acceptance on the explored schedules (virtual clock, fake subprocess, instrumented semaphore/state table; fine-grained settling so cancels hit every await point), not proved. ")
 CHECKS = {
+ "C11": dict(
+   text="Theorems for EVERY reachable state of the pool LTS (any number of tasks, any DAG, any interleaving of exits with any code, time-outs, cancel requests at any point, late submissions, any core count): the start label is enabled only when every dependency is a finished COMPLETED task; a started task's dependencies all finished COMPLETED with exit code 0 (started_after_deps_completed); a finished task never changes, so a completed dependency stays completed; if a dependency ended failed/killed/cancelled the dependent is never started and never COMPLETED (failed_dep_blocks) and carries that dependency's state (dependent_inherits_state). Invariant proved by induction over all label sequences (step_ginv).",
+   note=POOL_NOTE + "Trace oracle PoolSpec (C11 conjuncts) is evaluated on every observed trace independently of the model's guards.",
+   technique="Lean 4 proof (inductive invariant over an LTS, all reachable states) + trace validation of the real asyncio scheduler + trace oracle",
+   design="§6-C11..C13, App. A"),
+ "C12": dict(
+   text="Theorems for EVERY reachable state: at most c cores are handed out, a live process implies its task holds a core, hence #alive processes ≤ c (alive_le_cores, via duplicate-free holder list and pigeonhole); a core is released only by its holder and only after the process is gone; at quiescence a free core implies no ready task is waiting (work_conserving, by definition of the parked predicate, which the harness checks against the real scheduler at every idle point).",
+   note=POOL_NOTE + "Work conservation is a statement about quiescent states; that the implementation's idle states are quiescent model states is validated at every explored idle point. Real-process runs check overlap with OS processes.",
+   technique="Lean 4 proof (inductive invariant, pigeonhole) + trace validation + real-process runs",
+   design="§6-C11..C13, App. A"),
+ "C13": dict(
+   text="Theorems for EVERY reachable state: a finished task is frozen under every label (final_stable), cancelling it is the identity (cancel_finished_noop), it is final, holds no core and has no process; state/history table: COMPLETED iff ran and exited 0 with logs written and not cancelled/timed out, FAILED/KILLED/CANCELLED only with the matching cause (final_matches); a process is started at most once; the core is given back only when the process is gone; when nothing can move, nothing is alive and no kill is pending, every task is finished (eventually_final, strong induction on task ids).",
+   note=POOL_NOTE + "'None of the task's processes keeps running' (OS process groups) and log completeness with large outputs are checked with real processes only (2 quick / 12 thorough scenarios). eventually_final assumes >=1 core and dependencies on earlier task ids.",
+   technique="Lean 4 proof (inductive invariant over an LTS) + trace validation + real-process runs",
+   design="§6-C11..C13, App. A"),
  "C01": dict(
    text="Theorems for ALL file snapshots, timestamp assignments (ties included), input/output lists and spec flags: should_run is false iff spec unchanged ∧ ≥1 output ∧ every output exists ∧ no input strictly newer than any output (shouldRun_false_iff, via max/min lemmas), true otherwise, total when inputs exist; the decision depends only on the SET of declared paths, hence not on container shape (shouldRun_set_irrelevant/_shape_irrelevant over the inductive Shape type); with no live/failed/cancelled job and complete dependencies the status is completed iff not stale (status_file_based). Tied to the code by the exhaustive single-target enumeration + random DAGs through the real should_run/schedule/FileSpecHashes and the make-semantics predicate evaluated on every observed status map.",
    note="File system is an in-memory snapshot object with CachedFilesystem's interface; one-stat-per-path consistency of the real CachedFilesystem is only exercised by CLI correspondences. sha1 modelled as equality of spec text.",
